@@ -34,8 +34,12 @@ func Run(ctx *core.Ctx) {
 	ctx.AddEvals(int64(len(cases)))
 	res := RunIsolated(cases, 10*time.Second)
 	byFam := map[string]int{}
+	compileErrs := map[string]int{}
 	for _, c := range cases {
 		byFam[c.Family]++
+		if o, ok := res[c.ID]; ok && o.CompileErr && c.Kind == "render" {
+			compileErrs[c.Family]++
+		}
 		o, ok := res[c.ID]
 		if !ok {
 			ctx.ToolError("no outcome for case %d (%s)", c.ID, c.Family)
@@ -69,6 +73,12 @@ func Run(ctx *core.Ctx) {
 		}
 	}
 	ctx.Extra["cases_by_family"] = byFam
+	ctx.Extra["compile_errors_by_family"] = compileErrs
+	// a family built to render must reach the renderer: a bundle the compiler
+	// rejects exercises nothing
+	if n := compileErrs["msg-bundle"]; n > 0 {
+		ctx.ToolError("msg-bundle family: %d of %d cases did not compile (dead driver)", n, byFam["msg-bundle"])
+	}
 }
 
 func describe(c *Case) string {
